@@ -90,7 +90,8 @@ pub fn replay(args: &[String]) {
     rep.print();
 }
 
-const NUMS: &[&str] = &["", "0", "1", "01", "10", "007", "3", "12", "0", "1", "2", "5", "100", "4294967295", "4294967296", "99999999999", "2024"];
+const NUMS: &[&str] = &["", "0", "1", "01", "10", "007", "3", "12", "0", "1", "2", "5", "100", "4294967295", "4294967296", "99999999999", "2024", "4294967294", "2147483647", "2147483648", "65536",
+    "0000000000", "004294967295"];
 const SEPS: &[&str] = &["", "", ".", "-", "_"];
 const PRE: &[&str] = &["a", "alpha", "b", "beta", "c", "rc", "pre", "preview", "A", "Alpha", "BETA", "RC", "Rc", "pReView"];
 const POST: &[&str] = &["post", "rev", "r", "POST", "Rev", "R"];
